@@ -160,12 +160,12 @@ def observe(case, props, queries=(), lookups=(), direct=()) -> dict:
 # ---------------------------------------------------------------------------------------------
 # generators
 
-def seeded_map(r, max_segments=12, max_total_s=9.0e5):
+def seeded_map(r, max_segments=12, max_total_s=9.0e5, min_segments=1):
     """A well-formed tempo map over the property's whole range, total time below ~10^6 s.
 
     Returns (res, tempo [[tick, n]], interesting ticks)."""
     res = r.choice([192, 480, 960, 100, 1, 2, 3, 7, 97, 1000, r.randrange(1, 100001), 2 * r.randrange(1, 50000) + 1])
-    nseg = r.randrange(1, max_segments + 1)
+    nseg = r.randrange(min_segments, max_segments + 1)
     budget = Fraction(r.choice([10, 1000, 100000, int(max_total_s)]))
     tempo = []
     t = 0
